@@ -204,6 +204,30 @@ Definition finding_D44 (template_text : bytes) : bool :=
                     end)
           (r_tokens (html_tokenize SData template_text)).
 
+(* ---- D45: the engine ends a tag name at the first byte that is not an ASCII letter or digit (or an
+   inner colon / hyphen); the tokenizer ends it at white space, a solidus or the closing bracket only.
+   <style[NBSP] ...> is the special element style for the engine and an unknown element for the
+   tokenizer, so what the engine keeps as style sheet text (a comment opener, say) is markup. *)
+Definition name_byte (c : N) : bool :=
+  ((48 <=? c) && (c <=? 57)) || ((65 <=? c) && (c <=? 90)) || ((97 <=? c) && (c <=? 122)).
+Definition tok_name_end (c : N) : bool :=
+  (c =? 9) || (c =? 10) || (c =? 12) || (c =? 13) || (c =? 32) || (c =? 47) || (c =? 62).
+
+Definition special_name_runs_on (s : bytes) : bool :=
+  existsb (fun nm =>
+             prefix_ci (60 :: nm) s &&
+             match skipn (S (length nm)) s with
+             | c :: _ => negb (name_byte c) && negb (tok_name_end c) && negb (c =? 58) && negb (c =? 45)
+                          && negb (c =? 123)   (* an action right after the name is D43's shape *)
+             | [] => false
+             end) special_names.
+
+Fixpoint finding_D45 (template_text : bytes) : bool :=
+  match template_text with
+  | [] => false
+  | _ :: t => special_name_runs_on template_text || finding_D45 t
+  end.
+
 (* ---- D1: a defined template that is the target of at least two template calls and whose body
    changes the context (a context-opening or context-closing helper): the engine memoises the
    callee's INPUT context as its output context, so the second call site continues in the wrong
